@@ -1,4 +1,3 @@
-(* WIP *)
 (* Model of packets/fixedheader.go, the per-type Decode/Encode methods of packets/packets.go (after
    the fix: commits de482bb, 1a5113d, a924969, bdb97b6) and the dispatch of clients.go ReadPacket.
    Same case splits, same order of reads, same unchecked indexing as the Go code.  A method that
